@@ -15,8 +15,8 @@ Protocol (ids are small naturals; op n is "op<n>", resource n is "r<n>" in the i
   cell o p <same five fields as exec> <ok|notag|raise[.K]>          IntegratedCell.execute (cell.coordination = the system)
 A work function that returns does so with `ok` (42) or `ok.<V>`: N None, Z 0, E "", L [], F False, O object().
 Exception kinds K: V0 ValueError(), A0 AssertionError(), R0 RuntimeError(""), K0 KeyError(), C0 CustomFault() (all with
-str(e) == ""), Vm ValueError("boom"), Km KeyError("k"), Cm CustomFault("boom"); plain `raise` = RuntimeError with a
-message.  Checkpoints: x RuntimeError("checkpoint"), y ValueError(), z CustomFault().  BaseException subclasses
+str(e) == ""), Vm ValueError("boom"), Km KeyError("k"), Cm CustomFault("boom"), SX BadStrFault() (str(e) and repr(e)
+raise); plain `raise` = RuntimeError with a message.  Checkpoints: x RuntimeError("checkpoint"), y ValueError(), z CustomFault().  BaseException subclasses
 (KeyboardInterrupt, SystemExit) are not injected: every handler in system.py / controller.py / cell.py is
 `except Exception`, the code does not claim to survive them.
 Calls naming an operation that is not in controller.active_operations are not made ("noop"); registering an id
@@ -36,18 +36,29 @@ class CustomFault(Exception):
     pass
 
 
+class BadStrFault(Exception):
+    """an exception whose str() and repr() themselves raise"""
+
+    def __str__(self):
+        raise RuntimeError("bad __str__")
+
+    def __repr__(self):
+        raise RuntimeError("bad __repr__")
+
+
 def make_exc(tok, default_msg):
     """tok: 'raise' or 'raise.<kind>'"""
     kind = tok.split(".", 1)[1] if "." in tok else ""
     return {"V0": lambda: ValueError(), "A0": lambda: AssertionError(), "R0": lambda: RuntimeError(""),
             "K0": lambda: KeyError(), "C0": lambda: CustomFault(), "Vm": lambda: ValueError("boom"),
-            "Km": lambda: KeyError("k"), "Cm": lambda: CustomFault("boom")}.get(kind, lambda: RuntimeError(default_msg))()
+            "Km": lambda: KeyError("k"), "Cm": lambda: CustomFault("boom"),
+            "SX": lambda: BadStrFault()}.get(kind, lambda: RuntimeError(default_msg))()
 
 
 RESULTS = {"N": lambda: None, "Z": lambda: 0, "E": lambda: "", "L": lambda: [], "F": lambda: False,
            "O": lambda: object()}
 RESULT_KINDS = ["", "", "", ".N", ".N", ".Z", ".E", ".L", ".F", ".O"]
-KINDS = ["", "", ".V0", ".A0", ".R0", ".K0", ".C0", ".Vm", ".Km", ".Cm"]
+KINDS = ["", "", ".V0", ".A0", ".R0", ".K0", ".C0", ".Vm", ".Km", ".Cm", ".SX", ".SX"]
 
 
 def opn(n):
